@@ -18,13 +18,17 @@ THEOREMS = [
     "C19_archive_name_determines_id",
     "C19_archive_kept_outside_known",
     "C19_history_deleted_stay_archived",
+    "C19_last_line_without_newline_is_a_line",
+    "C19_crlf_terminated_line",
+    "C19_archive_complete_for_replay",
+    "C19_unterminated_last_entry_archived",
 ]
 RULE = ("real directories under a per-process configuration (SNELDB_CONFIG): WAL directory populations (canonical, aliased and "
         "non-matching file names, directories, empty files, files with blank / torn / foreign / invalid-UTF-8 lines, entries with "
         "null, bool, i64/u64 edge, float, string, nested JSON payload values in several spellings) x keep_from_log_id x fault "
         "patterns of the archive directory (missing, a regular file, a directory squatting on the predicted archive name of a subset "
         "of the files, pre-existing garbage / decodable archive of the same name, every write failing after File::create via RLIMIT_FSIZE=0) x conservative and plain mode x one or two cleanup "
-        "rounds with id reuse, archive_log called directly, recovery over foreign archive directory contents; plus the MessagePack trip "
+        "rounds with id reuse, log files given as raw bytes with every final-line shape (complete entry without newline, CRLF, torn prefix, whitespace only, JSON followed by garbage, empty file, only newlines, a kept \\r) and interior blank / foreign / non-UTF-8 / 9-70 KB lines with the real WAL replay of each file observed before the cleanup, archive_log called directly, recovery over foreign archive directory contents; plus the MessagePack trip "
         "of every ScalarValue variant.  A case is non-trivial when a cleanup deleted a file, an injected fault applied, or recovery "
         "returned entries; distinct by (scenario kind, implementation output)")
 ASSUMPTIONS = [
@@ -131,8 +135,6 @@ def read_line(raw):
         s = raw.decode("utf-8")
     except UnicodeDecodeError:
         return "U"
-    if s.endswith("\r"):
-        s = s[:-1]
     if s.strip() == "":
         return "B"
     try:
@@ -162,6 +164,26 @@ def read_line(raw):
         pm[k.encode("utf-8")] = scalar_of(x)
     pl = "+".join(f"{hb(k)}@{pm[k]}" for k in sorted(pm))
     return f"{f['timestamp']}/{hb(f['context_id'].encode())}/{hb(f['event_type'].encode())}/{eid}/{pl}"
+
+
+def py_lines(content):
+    """BufRead::lines on the bytes of a file, re-implemented here for the oracle: pieces ending in "\n" are lines
+    (one "\r" before it dropped), a non-empty rest after the last "\n" is a line too."""
+    pieces = content.split(b"\n")
+    out = [p[:-1] if p.endswith(b"\r") else p for p in pieces[:-1]]
+    if pieces[-1]:
+        out.append(pieces[-1])
+    return out
+
+
+def replay_file(raws):
+    """the entries WAL replay accepts from the lines of a file (a non-UTF-8 line is skipped, replay goes on)"""
+    return [x for x in (read_line(r) for r in raws) if x not in ("U", "B", "J")]
+
+
+def memtable_order(es):
+    """MemTable::iter: by context id (bytes), insertion order within"""
+    return sorted(es, key=lambda e: vlib.unhx(e.split("/")[1]))
 
 
 def read_file(raws):
@@ -267,15 +289,22 @@ class Ids:
         return self.n
 
 
-def gen_entry(rng, ids, ts=None):
-    """(raw bytes, descriptor 'E/…') of one well-formed entry line."""
+def gen_entry(rng, ids, ts=None, replayable=False, extra=()):
+    """(raw bytes, descriptor 'E/…') of one well-formed entry line.  replayable: one non-blank context, non-blank
+    type, non-zero id (WAL replay keeps such an entry as it is); extra: additional (key, json text, descriptor)."""
     if ts is None:
         ts = rng.choice([1700000000 + rng.below(100), rng.below(10), rng.range(0, U64), 0, U64]) if rng.chance(1, 3) else 1700000000 + rng.below(5)
     ctx = rng.choice(["c1", "c2", "ctx-é", "", "user 7", "\U0001F600"])
     et = rng.choice(["t", "order_created", "evénement", ""])
     omit_id = rng.chance(1, 12)
     eid = 0 if omit_id else rng.choice([ids.next(), ids.next(), rng.range(0, U64), U64])
+    if replayable:
+        ctx, et, omit_id = "c1", rng.choice(["t", "order_created", "evénement"]), False
+        eid = rng.choice([ids.next(), rng.range(1, U64)])
     pairs, desc = [], []
+    for k, t, d in extra:
+        pairs.append(f"{jstr(k, rng)}:{t}")
+        desc.append(f"{hb(k.encode('utf-8'))}@{d}")
     for _ in range(rng.choice([0, 1, 1, 2, 3, 5])):
         k = rng.choice(KEYS)
         t, d = gen_value(rng)
@@ -366,6 +395,24 @@ def wtok(kind, name, ls):
     return f"{kind}={hb(name)}=f=" + ",".join(f"{hb(r)}~{d}" for r, d in ls)
 
 
+def btok(kind, name, segs):
+    """a file given by its bytes: segs = [(raw line, descriptor, terminator b"\\n" | b"\\r\\n" | b"")]; the table maps
+    each line as the reader will see it to its descriptor"""
+    content = b"".join(r + t for r, _, t in segs)
+    table = {}
+    for r, d, t in segs:
+        if t:
+            line = r + t[:-1]
+            if line.endswith(b"\r"):
+                line = line[:-1]
+        else:
+            line = r
+            if not line:
+                continue
+        table[line] = d
+    return f"{kind}={hb(name)}=b={hb(content)}=" + ",".join(f"{hb(k)}~{v}" for k, v in table.items())
+
+
 def entries_of_lines(ls):
     return read_file([r for r, _ in ls])
 
@@ -406,6 +453,9 @@ def mem_entry(rng, ids):
         ps[rng.choice(KEYS)] = mem_scalar(rng)
     pl = "+".join(f"{hb(k.encode('utf-8'))}@{v}" for k, v in ps.items())
     return f"{ts}/{hb(ctx.encode())}/{hb(et.encode())}/{ids.next()}/{pl}"
+
+
+tier_thorough = [False]
 
 
 def scenario(rng, kind):
@@ -549,6 +599,70 @@ def scenario(rng, kind):
             p = pred(canonical(rng.choice(idset)))
             es = "|".join(mem_entry(rng, ids) for _ in range(rng.range(1, 2)))
             toks += [f"A={hb(p)}=a=0=1=2={es}", "F=0", f"C={max(idset) + 1}", f"L={rng.choice(idset)}", "F=-", "REC"]
+    elif kind == "shapes":
+        # what is a log entry: final-line shapes, terminators, interior blank / foreign / non-UTF-8 / very long lines,
+        # with WAL replay of each file observed first (RPL) and then a cleanup of everything
+        root()
+        nfiles = rng.range(1, 3)
+        names = []
+        for i in range(nfiles):
+            segs = []
+
+            def ent(long_len=0):
+                extra = ()
+                if long_len:
+                    v = "".join(rng.choice("abcdefghij0123456789 é") for _ in range(64)) * (long_len // 64)
+                    extra = (("big", json.dumps(v, ensure_ascii=False), "s" + hb(v.encode("utf-8"))),)
+                return gen_entry(rng, ids, 1700000000 + rng.below(5), replayable=True, extra=extra)
+
+            def interior():
+                r = rng.below(14)
+                if r < 7:
+                    return ent()
+                if r == 7:
+                    return rng.choice([b"", b" ", b"\t", b"   \t "]), "B"
+                if r == 8:
+                    return rng.choice(JUNK), "J"
+                if r == 9:
+                    raw, _ = ent()
+                    return tear(rng, raw), None
+                if r == 10:
+                    return rng.choice(BADUTF8), "U"
+                if r == 11:
+                    return ent(rng.choice([9000, 9000, 20000] if tier_thorough[0] is False else [9000, 20000, 70000]))
+                raw, _ = ent()
+                return raw + rng.choice([b" x", b"}", b"{}", b",", b" 1"]), "J"
+
+            for _ in range(rng.choice([0, 1, 2, 3, 5])):
+                raw, d = interior()
+                if d is None:
+                    d = read_torn(raw)
+                segs.append((raw, d, rng.choice([b"\n", b"\n", b"\n", b"\r\n"])))
+            shape = rng.choice("aabbccddeefgh")
+            if shape == "a":        # complete entry, no newline
+                raw, d = ent(); segs.append((raw, d, b""))
+            elif shape == "b":      # complete entry, "\r\n"
+                raw, d = ent(); segs.append((raw, d, b"\r\n"))
+            elif shape == "c":      # genuinely torn prefix (with or without newline)
+                raw, _ = ent(); cut = tear(rng, raw); segs.append((cut, read_torn(cut), rng.choice([b"", b"", b"\n"])))
+            elif shape == "d":      # whitespace only
+                segs.append((rng.choice([b" ", b"  \t", b"\r", b" \r"]), "B", rng.choice([b"", b"", b"\n"])))
+            elif shape == "e":      # valid JSON followed by garbage, no newline
+                raw, _ = ent(); segs.append((raw + rng.choice([b" x", b"}", b"{\"a\":1}", b"\x00"]), "J", b""))
+            elif shape == "f":      # empty file (only when nothing else was generated) / properly terminated file
+                pass
+            elif shape == "g":      # only newlines
+                segs = [(b"", "B", rng.choice([b"\n", b"\r\n"])) for _ in range(rng.range(1, 2))]
+            else:                   # entry, "\r" kept on an unterminated last line
+                raw, d = ent(); segs.append((raw + b"\r", d, b""))
+            if shape == "f" and rng.chance(1, 2):
+                segs = []
+            nm = canonical(i)
+            names.append(nm)
+            toks.append(btok("W", nm, segs))
+        for nm in names:
+            toks.append(f"RPL={hb(nm)}")
+        toks += [f"C={nfiles}", "REC"]
     elif kind == "zoo":
         toks.append("R=d")
         names = [b"a.zst", b"x.zst", b".zst", b"noext", b"b.ZST", b"c.wal.zst", b"wal-00000-1-1.wal.zst", b"wal-00000-1-1.wal.zst.bak",
@@ -571,10 +685,11 @@ def scenario(rng, kind):
 
 
 KINDS = [("basic", 5), ("plain", 3), ("squat", 4), ("retry", 2), ("rootfile", 1), ("badfile", 2), ("alias", 3), ("names", 2),
-         ("wide", 2), ("mismatch", 2), ("reuse", 2), ("preexisting", 2), ("direct", 2), ("zoo", 2), ("starve", 2)]
+         ("wide", 2), ("mismatch", 2), ("reuse", 2), ("preexisting", 2), ("direct", 2), ("zoo", 2), ("starve", 2), ("shapes", 7)]
 
 
 def cases(rng, tier):
+    tier_thorough[0] = tier != "quick"
     n = 2500 if tier == "quick" else 150000
     out = []
     bag = [k for k, w in KINDS for _ in range(w)]
@@ -691,6 +806,7 @@ def judge(c, impl):
     archived_ok = []   # (round, id, entries, name) of every log archive_log (L) reported as archived
     touched = set()    # archive names some cleanup round or L may have written (predicted from the inputs)
     rnd = 0
+    rpl = {}           # (dir, name) -> entries the real WAL replay restored from that file (RPL)
     starve = False     # F=0: every write to a regular file fails (after File::create truncated the target)
     last_rec = None
     rec_is_last = False
@@ -727,12 +843,32 @@ def judge(c, impl):
             squat.discard(vlib.unhx(v))
             pre.pop(vlib.unhx(v), None)
         elif k in ("W", "X"):
-            f = v.split("=", 2)
+            f = v.split("=", 3)
             d = wal if k == "W" else xwal
             if f[1] == "d":
                 d[vlib.unhx(f[0])] = None
+            elif f[1] == "b":
+                # the bytes of the file; its lines are derived here, not taken from the case's table
+                d[vlib.unhx(f[0])] = py_lines(vlib.unhx(f[2]))
             else:
-                d[vlib.unhx(f[0])] = [vlib.unhx(l.split("~")[0]) for l in f[2].split(",")] if len(f) > 2 and f[2] else []
+                body = "=".join(f[2:])
+                content = b"".join(vlib.unhx(l.split("~")[0]) + b"\n" for l in body.split(",")) if body else b""
+                d[vlib.unhx(f[0])] = py_lines(content)
+            rpl.pop((k, vlib.unhx(f[0])), None)
+        elif k == "RPL":
+            o = obs[oi]
+            oi += 1
+            nm = vlib.unhx(v)
+            src = xwal if use_x else wal
+            if o != "RPL:none" and src.get(nm) is not None:
+                got = o[4:].split("|") if o[4:] else []
+                rpl[("X" if use_x else "W", nm)] = got
+                ref = replay_file(src[nm])
+                # the reference reader of this oracle against the real WalRecovery (entries replay keeps as they are)
+                if all(e.split("/")[3] != "0" and vlib.unhx(e.split("/")[1]).strip() and vlib.unhx(e.split("/")[2]).strip() for e in ref):
+                    if memtable_order(ref) != got:
+                        fails.append((f"WAL replay of {nm.decode('utf-8', 'replace')} restores {len(got)} entries, the oracle's reader {len(ref)}: "
+                                      f"the oracle's notion of a log entry is not the implementation's", None))
         elif k == "L":
             o = obs[oi]
             oi += 1
@@ -789,7 +925,8 @@ def judge(c, impl):
                     raws = target[n]
                     i = scan_id(n)
                     es = read_file(raws) if raws is not None else None
-                    deleted.append({"name": n, "id": i, "entries": es, "round": rnd, "via_x": use_x})
+                    deleted.append({"name": n, "id": i, "entries": es, "round": rnd, "via_x": use_x,
+                                    "replayed": rpl.get(("X" if use_x else "W", n))})
                 if not fault and root_kind != "f":
                     root_kind = "d"
             for n in gone:
@@ -813,6 +950,18 @@ def judge(c, impl):
         what = f"{len(d['entries'])} entries" if d["entries"] is not None else "not archivable: invalid UTF-8"
         fails.append((f"log {d['name'].decode('utf-8', 'replace')} ({what}) was deleted in round {d['round']} "
                       f"but no archive holds its entries at the end", cls))
+    # P6: every entry the real WAL replay restored from a deleted file is in an archive of that log, in replay order
+    for d in deleted:
+        if d.get("replayed"):
+            ok = False
+            for a in decodable.values():
+                if a[1] != d["id"]:
+                    continue
+                it = iter(memtable_order(a[5]))
+                if all(any(x == e for x in it) for e in d["replayed"]):
+                    ok = True
+            if not ok and not any(w.startswith(f"log {d['name'].decode('utf-8', 'replace')} ") for w, _ in fails):
+                fails.append((f"log {d['name'].decode('utf-8', 'replace')} was deleted but an entry WAL replay restores from it is in no archive", None))
     # P4: a decodable archive that existed before is still there (name and entries) unless the case removed it
     for nm, es in pre.items():
         a = archives.get(nm)
